@@ -7,7 +7,7 @@ payload = `<mode>:<k>:<needs>/<endNeed>[:j];op;op;…`
 * `k` = number of consumers (tasks `0 … k-1`), `needs` = `,`-separated `need` of item 0, 1, … (`-` = no items)
 * `:j` = consumers `2i` and `2i+1` are two requests joined in ONE task and share the waker of `2i`
   (`grp c = c - c % 2`); the wake ids printed after `!` are then waker (group) ids
-* ops: `start:<c>:<depth>:<api>` (api ∈ v|s|m|n|e is only the shape of the Rust call; `e` = a batch key whose message formats with a resolver error, `z` = a batch with a key that formats to the empty string), `poll:<c>`, `fire`, `pf` (prefetch)
+* ops: `start:<c>:<depth>:<api>` (api ∈ v|s|m|n|e is only the shape of the Rust call; `e` = a batch key whose message formats with a resolver error, `z` = a batch with a key that formats to the empty string, `w` = a batch with a key that is value-less in every earlier bundle), `poll:<c>`, `fire`, `pf` (prefetch)
 
 observation per piece: `hdr` | `s` | `busy` | `idle` | `P#<polls>.<pulls>!<wakes>` |
 `R<item>/<got>#…!…` | `RN/<got>#…!…` | `f#…!…`; `got` and `wakes` are `.`-separated (`-` = empty);
@@ -38,7 +38,7 @@ def parseOp (k : Nat) (op : String) : Option Op :=
   match op.splitOn ":" with
   | ["start", c, d, api] =>
     match c.toNat?, d.toNat? with
-    | some c, some d => if c < k ∧ (api == "v" || api == "s" || api == "m" || api == "n" || api == "e" || api == "z") then some (.start c (max d 1)) else none
+    | some c, some d => if c < k ∧ (api == "v" || api == "s" || api == "m" || api == "n" || api == "e" || api == "z" || api == "w") then some (.start c (max d 1)) else none
     | _, _ => none
   | ["poll", c] =>
     match c.toNat? with
